@@ -18,6 +18,8 @@ import (
 
 	"github.com/criyle/go-sandbox/container"
 	"github.com/criyle/go-sandbox/pkg/pipe"
+	"github.com/criyle/go-sandbox/pkg/seccomp"
+	"github.com/criyle/go-sandbox/pkg/seccomp/libseccomp"
 	"github.com/criyle/go-sandbox/ptracer"
 	"github.com/criyle/go-sandbox/runner"
 	"github.com/criyle/go-sandbox/runner/ptrace"
@@ -29,6 +31,26 @@ func (allowAll) CheckRead(string) ptracer.TraceAction    { return ptracer.TraceA
 func (allowAll) CheckWrite(string) ptracer.TraceAction   { return ptracer.TraceAllow }
 func (allowAll) CheckStat(string) ptracer.TraceAction    { return ptracer.TraceAllow }
 func (allowAll) CheckSyscall(string) ptracer.TraceAction { return ptracer.TraceAllow }
+
+// tagged allows everything except a path that carries the tag of another run: that would be another run's trap event
+type tagged struct {
+	tag     string
+	foreign *atomic.Int64
+}
+
+func (t tagged) check(p string) ptracer.TraceAction {
+	if i := strings.Index(p, "c17run-"); i >= 0 && !strings.Contains(p, t.tag) {
+		t.foreign.Add(1)
+		return ptracer.TraceKill
+	}
+	return ptracer.TraceAllow
+}
+func (t tagged) CheckRead(p string) ptracer.TraceAction    { return t.check(p) }
+func (t tagged) CheckWrite(p string) ptracer.TraceAction   { return t.check(p) }
+func (t tagged) CheckStat(p string) ptracer.TraceAction    { return t.check(p) }
+func (t tagged) CheckSyscall(string) ptracer.TraceAction   { return ptracer.TraceAllow }
+
+var traceStat seccomp.Filter
 
 func strs(v any) []string {
 	r := []string{}
@@ -61,6 +83,27 @@ func one(w map[string]any, envs []container.Environment) map[string]any {
 	args := strs(w["prog"])
 	t0 := time.Now()
 	switch w["kind"] {
+	case "ptrace_paths":
+		// the program probes paths that carry this run's tag; the handler refuses any path with another run's tag
+		var foreign atomic.Int64
+		r := &ptrace.Runner{Args: append([]string{hx.Target()}, args...), Env: []string{}, WorkDir: "/", Files: []uintptr{null.Fd(), buf.W.Fd(), buf.W.Fd()},
+			Limit: runner.Limit{TimeLimit: tl, MemoryLimit: 1 << 30}, Seccomp: traceStat, Handler: tagged{tag: args[2], foreign: &foreign}}
+		res = r.Run(ctx)
+		defer func() {}()
+		buf.W.Close()
+		<-buf.Done
+		return map[string]any{"status": int(res.Status), "exit": res.ExitStatus, "error": res.Error, "stdout": "", "foreign_paths": foreign.Load(),
+			"ms": time.Since(t0).Milliseconds()}
+	case "ping":
+		time.Sleep(time.Duration(hx.Int(w["delay_ms"])) * time.Millisecond)
+		err := envs[int(hx.Int(w["env"]))%len(envs)].Ping()
+		e := ""
+		if err != nil {
+			e = err.Error()
+		}
+		buf.W.Close()
+		<-buf.Done
+		return map[string]any{"status": 1, "exit": 0, "error": e, "stdout": "", "ms": time.Since(t0).Milliseconds()}
 	case "ptrace":
 		r := &ptrace.Runner{Args: append([]string{hx.Target()}, args...), Env: []string{}, WorkDir: "/", Files: []uintptr{null.Fd(), buf.W.Fd(), buf.W.Fd()},
 			Limit: runner.Limit{TimeLimit: tl, MemoryLimit: 1 << 30}, Seccomp: hx.AllowAll(), Handler: allowAll{}}
@@ -88,6 +131,10 @@ func one(w map[string]any, envs []container.Environment) map[string]any {
 func main() {
 	hx.Init()
 	scratch = os.Getenv("VERIF_SCRATCH")
+	var ferr error
+	if traceStat, ferr = (&libseccomp.Builder{Trace: []string{"access", "stat", "newfstatat", "faccessat", "faccessat2"}, Default: libseccomp.ActionAllow}).Build(); ferr != nil {
+		panic(ferr)
+	}
 	hx.Cases(func(c map[string]any) map[string]any {
 		nenv := int(hx.Int(c["envs"]))
 		envs := []container.Environment{}
